@@ -152,3 +152,126 @@ class Combine(Harness):
 
 
 HARNESSES = [Combine()]
+
+# ---- deductive contracts: locate_domains builds exactly the union (last found file wins on a clash) and writes nothing that existed --------
+# The content of an agent file is a function of its path (trusted: DomainParser.parse_domain, bounded under C01): fk(tag, path) is the
+# key sequence and fm(tag, path) the entries of the parsed domain's dictionary number `tag` (0 types, 1 predicates, 2 constants, 3 actions,
+# 4 functions).  U / V are the mathematical specification of the merge over the first n found files, on top of a base dictionary.
+import z3 as _z3
+from pyvc.core import Val as _Val
+from pyvc.sorts import I as _I, S as _S
+_SS = _z3.SeqSort(_S)
+_SI = _z3.SeqSort(_I)
+_AM = _z3.ArraySort(_S, _I)
+_fk = _z3.Function("file_keys", _I, _I, _SS)
+_fm = _z3.Function("file_map", _I, _I, _AM)
+_U = _z3.RecFunction("union_has", _I, _SI, _SS, _S, _I, _z3.BoolSort())
+_V = _z3.RecFunction("union_val", _I, _SI, _AM, _S, _I, _I)
+_t, _n = _z3.Ints("u_tag u_n")
+_p, _bk, _bm, _k = _z3.Const("u_paths", _SI), _z3.Const("u_bk", _SS), _z3.Const("u_bm", _AM), _z3.Const("u_k", _S)
+_z3.RecAddDefinition(_U, [_t, _p, _bk, _k, _n], _z3.If(_n <= 0, _z3.Contains(_bk, _z3.Unit(_k)),
+                     _z3.Or(_z3.Contains(_fk(_t, _p[_n - 1]), _z3.Unit(_k)), _U(_t, _p, _bk, _k, _n - 1))))
+_z3.RecAddDefinition(_V, [_t, _p, _bm, _k, _n], _z3.If(_n <= 0, _z3.Select(_bm, _k),
+                     _z3.If(_z3.Contains(_fk(_t, _p[_n - 1]), _z3.Unit(_k)), _z3.Select(_fm(_t, _p[_n - 1]), _k), _V(_t, _p, _bm, _k, _n - 1))))
+_glob = _z3.Function("glob_result", _I, _S, _SI)
+_psrc = _z3.Function("parser_source", _I, _I)
+_TAGS = {"types": 0, "predicates": 1, "constants": 2, "actions": 3, "functions": 4}
+_DCLS = {"types": "dict_PDDLType", "predicates": "dict_str_ref", "constants": "dict_PDDLObject", "actions": "dict_str_ref", "functions": "dict_str_ref"}
+
+
+def _h_content(interp, st, a):
+    """content(domain, path): every vocabulary dictionary of `domain` holds exactly what the file `path` declares"""
+    dom, path = a
+    cs = []
+    for f, tag in _TAGS.items():
+        d = interp.read_field(st, dom, "Domain", f)
+        cs.append(interp.read_field(st, d, _DCLS[f], "keys").t == _fk(tag, path.t))
+        cs.append(interp.read_field(st, d, _DCLS[f], "map").t == _fm(tag, path.t))
+    return _Val(_z3.And(*cs), "bool")
+
+
+_C17_HOOKS = {
+    "union_has": lambda interp, st, a: _Val(_U(a[0].t, a[1].t, a[2].t, a[3].t, a[4].t), "bool"),
+    "union_val": lambda interp, st, a: _Val(_V(a[0].t, a[1].t, a[2].t, a[3].t, a[4].t), ("ref", "opaque")),
+    "glob_result": lambda interp, st, a: _Val(_glob(a[0].t, a[1].t), ("seq", ("ref", "Path"))),
+    "parser_source": lambda interp, st, a: _Val(_psrc(a[0].t), ("ref", "Path")),
+    "content": _h_content,
+    "action_name": lambda interp, st, a: interp.read_field(st, _Val(a[0].t, ("ref", "Action")), "Action", "name"),
+    "dict_map": lambda interp, st, a: interp.read_field(st, a[0], a[0].ty[1], "map"),
+    "empty_keys": lambda interp, st, a: _Val(_z3.Empty(_SS), ("seq", "str")),
+}
+_MC = "multi_agent.multi_agent_domain_converter:MultiAgentDomainsConverter."
+_CONV = ("ref", "MultiAgentDomainsConverter")
+_DOM = ("ref", "Domain")
+_PATHS = 'glob_result(self.domains_directory_path, "domain-*.pddl")'
+_GLOBALS = {"DEFAULT_TYPES": ("ref", "dict_PDDLType", "G_DEFAULT_TYPES"), "DUMMY_ADD_PREDICATE": ("ref", "Predicate", "G_DUMMY_ADD"),
+            "DUMMY_DEL_PREDICATE": ("ref", "Predicate", "G_DUMMY_DEL")}
+
+
+def _union_post(field, n, base_keys, base_map, dom="result"):
+    tag = _TAGS[field]
+    d = f"{dom}.{field}"
+    return [f"forall_str(lambda k: (k in {d}) == union_has({tag}, {_PATHS}, {base_keys}, k, {n}))",
+            f"forall_str(lambda k: implies(k in {d}, {d}[k] == union_val({tag}, {_PATHS}, {base_map}, k, {n})))"]
+
+
+_LOOP_INV = []
+_POST = []
+for _f in _TAGS:
+    _bk_s = "old(DEFAULT_TYPES.keys())" if _f == "types" else "empty_keys()"
+    _bm_s = "old(dict_map(DEFAULT_TYPES))"
+    _LOOP_INV += _union_post(_f, "_i", _bk_s, _bm_s, dom="combined_domain")
+    _POST += _union_post(_f, f"len({_PATHS})", _bk_s, _bm_s)
+CONTRACTS["pathlib:Path.glob"] = dict(
+    prop="C17", assumed=True, external=True, params={"self": ("ref", "Path"), "pattern": "str"}, returns=("seq", ("ref", "Path")), allocates=False,
+    ensures=["result == glob_result(self, pattern)", "forall_int(lambda i: allocated(result[i]), 0, len(result))"], raises={}, modifies=[],
+    spec_hooks=_C17_HOOKS)
+CONTRACTS["lisp_parsers.domain_parser:DomainParser.__init__"] = dict(
+    prop="C17", assumed=True, drop_self=True, params={"domain_path": ("ref", "Path"), "partial_parsing": "bool", "enable_disjunctions": "bool"},
+    returns=("ref", "DomainParser"),
+    ensures=["fresh(result)", "parser_source(result) == domain_path"], raises={}, modifies=[], spec_hooks=_C17_HOOKS)
+CONTRACTS["lisp_parsers.domain_parser:DomainParser.parse_domain"] = dict(
+    prop="C17", assumed=True, params={"self": ("ref", "DomainParser")}, returns=_DOM,
+    ensures=["fresh(result)", "fresh(result.types)", "fresh(result.predicates)", "fresh(result.constants)", "fresh(result.actions)",
+             "fresh(result.functions)", "fresh(result.requirements)", "content(result, parser_source(self))"],
+    raises={"SyntaxError": "True", "ValueError": "True", "KeyError": "True", "IndexError": "True", "AssertionError": "True", "AttributeError": "True",
+            "TypeError": "True"},
+    modifies=[], spec_hooks=_C17_HOOKS)
+_ACT = "combined_domain.actions"
+CONTRACTS[_MC + "locate_domains"] = dict(
+    prop="C17", params={"self": _CONV, "add_dummy_actions": "bool"}, locals={"combined_domain": _DOM, "agent_domain": _DOM}, returns=_DOM,
+    globals=_GLOBALS, dict_values={"dict_str_ref": "opaque"}, dict_membership_only=True,
+    requires=["allocated(self)", "allocated(self.domains_directory_path)", "allocated(DEFAULT_TYPES)", "allocated(DUMMY_ADD_PREDICATE)",
+              "allocated(DUMMY_DEL_PREDICATE)",
+              "forall_int(lambda i: forall_int(lambda j: implies(i != j, DEFAULT_TYPES.keys()[i] != DEFAULT_TYPES.keys()[j]), 0, len(DEFAULT_TYPES.keys())), 0, len(DEFAULT_TYPES.keys()))"],
+    ensures=["fresh(result)", "fresh(result.types)", "fresh(result.predicates)", "fresh(result.constants)", "fresh(result.actions)", "fresh(result.functions)",
+             # the module-level default table is what it was (a new Domain starts from a copy of it)
+             "DEFAULT_TYPES.keys() == old(DEFAULT_TYPES.keys())", "dict_map(DEFAULT_TYPES) == old(dict_map(DEFAULT_TYPES))"]
+    + [("implies(not add_dummy_actions, " + p + ")") for p in _POST]
+    + [("implies(add_dummy_actions, " + p + ")") for f in ("types", "constants", "functions") for p in _union_post(f, f"len({_PATHS})", "old(DEFAULT_TYPES.keys())" if f == "types" else "empty_keys()", "old(dict_map(DEFAULT_TYPES))")]
+    + [# with dummy actions: the union plus exactly the dummy predicate and the two dummy actions; entries of the union keep their values
+       f"implies(add_dummy_actions, forall_str(lambda k: (k in result.predicates) == (union_has(1, {_PATHS}, empty_keys(), k, len({_PATHS})) or k == DUMMY_ADD_PREDICATE.name)))",
+       f"implies(add_dummy_actions, forall_str(lambda k: implies(k in result.predicates and k != DUMMY_ADD_PREDICATE.name, result.predicates[k] == union_val(1, {_PATHS}, old(dict_map(DEFAULT_TYPES)), k, len({_PATHS})))))",
+       "implies(add_dummy_actions, result.predicates[DUMMY_ADD_PREDICATE.name] == DUMMY_ADD_PREDICATE)",
+       f"implies(add_dummy_actions, forall_str(lambda k: (k in result.actions) == (union_has(3, {_PATHS}, empty_keys(), k, len({_PATHS})) or k == 'dummy-add-predicate-action' or k == 'dummy-del-predicate-action')))",
+       f"implies(add_dummy_actions, forall_str(lambda k: implies(k in result.actions and k != 'dummy-add-predicate-action' and k != 'dummy-del-predicate-action', result.actions[k] == union_val(3, {_PATHS}, old(dict_map(DEFAULT_TYPES)), k, len({_PATHS})))))",
+       "implies(add_dummy_actions, fresh(result.actions['dummy-add-predicate-action']) and fresh(result.actions['dummy-del-predicate-action']))",
+       "implies(add_dummy_actions, action_name(result.actions['dummy-add-predicate-action']) == 'dummy-add-predicate-action' and action_name(result.actions['dummy-del-predicate-action']) == 'dummy-del-predicate-action')",
+       # the module-level dummy predicates are not written
+       "DUMMY_ADD_PREDICATE.name == old(DUMMY_ADD_PREDICATE.name)", "DUMMY_ADD_PREDICATE.signature == old(DUMMY_ADD_PREDICATE.signature)"],
+    raises={"SyntaxError": "True", "ValueError": "True", "KeyError": "True", "IndexError": "True", "AssertionError": "True", "AttributeError": "True",
+            "TypeError": "True"},
+    modifies=[],
+    calls={"Path.glob": "pathlib:Path.glob", "DomainParser": "lisp_parsers.domain_parser:DomainParser.__init__",
+           "DomainParser.parse_domain": "lisp_parsers.domain_parser:DomainParser.parse_domain"},
+    loops={0: dict(invariants=["fresh(combined_domain)", "fresh(combined_domain.types)", "fresh(combined_domain.predicates)", "fresh(combined_domain.constants)",
+                               "fresh(combined_domain.actions)", "fresh(combined_domain.functions)",
+                               "combined_domain.types != combined_domain.predicates", "combined_domain.types != combined_domain.constants",
+                               "combined_domain.types != combined_domain.actions", "combined_domain.types != combined_domain.functions",
+                               "combined_domain.predicates != combined_domain.constants", "combined_domain.predicates != combined_domain.actions",
+                               "combined_domain.predicates != combined_domain.functions", "combined_domain.constants != combined_domain.actions",
+                               "combined_domain.constants != combined_domain.functions", "combined_domain.actions != combined_domain.functions",
+                               "DEFAULT_TYPES.keys() == old(DEFAULT_TYPES.keys())", "dict_map(DEFAULT_TYPES) == old(dict_map(DEFAULT_TYPES))"] + _LOOP_INV,
+                   modifies=["Domain.name", "Domain.requirements", "dict_PDDLType.keys", "dict_PDDLType.map", "dict_str_ref.keys", "dict_str_ref.map",
+                             "dict_PDDLObject.keys", "dict_PDDLObject.map"])},
+    spec_hooks=_C17_HOOKS)
